@@ -35,6 +35,7 @@ const (
 	KClose0
 	KClose7
 	KDeepHost // succeeding: DeepFrames nested frames, then a host call that garbage-collects, then unwinds
+	KCloseB7  // succeeding in A: a host function closes the OTHER instance (B) with exit code 7
 	NKinds
 )
 
@@ -44,7 +45,7 @@ var kindNames = [NKinds]string{
 	"ok", "deepok", "unreachable", "div0", "overflow", "invalidconv", "oobstore", "oobfill", "tableoob", "cinull", "cimismatch", "cioob",
 	"unaligned", "rec0", "rec1", "rec64", "rec1024",
 	"panic-error", "panic-string", "panic-runtime", "panic-customerr", "panic-value",
-	"procexit0", "procexit3", "close0", "close7", "deephost",
+	"procexit0", "procexit3", "close0", "close7", "deephost", "closeb7",
 }
 
 // DeepFrames is below the interpreter's frame ceiling (2000) and far above the compiler's initial 10 KiB stack.
@@ -77,6 +78,7 @@ const (
 	impProcExit
 	impBDirect
 	impGC
+	impCloseB
 	nImportsA
 )
 
@@ -107,6 +109,7 @@ func buildGuest(isA bool) []byte {
 		m.ImportFunc(wasiModName, "proc_exit", []byte{i32}, nil)
 		m.ImportFunc("B", "direct", []byte{i32, i32}, []byte{i32})
 		m.ImportFunc(hostModName, "gc", nil, []byte{i32})
+		m.ImportFunc(hostModName, "closeb", []byte{i32}, nil)
 	}
 	m.Mem = &wb.Limits{Min: 1, Max: 1, HasMax: true}
 	g := m.AddGlobal(i32, true, wb.CI32(0))
@@ -208,6 +211,8 @@ func buildGuest(isA bool) []byte {
 			a.I32Const(0).Call(impClose)
 		case KClose7:
 			a.I32Const(7).Call(impClose)
+		case KCloseB7:
+			a.I32Const(7).Call(impCloseB)
 		}
 		post(a, g, 0)
 		ops[k] = m.AddFunc([]byte{i32}, nil, nil, a.B)
